@@ -129,12 +129,16 @@ func (k Keeper) GetNextSuperNodes(ctx sdk.Context, status uint32, reputation flo
 	}
 
 	snodes := k.GetAllSuperNodes(ctx)
-	i := uint8(round[0])
 	if len(snodes) > 0 {
-		for {
-			if i >= uint8(len(snodes)) {
-				i = 0
-			}
+		// the stored cursor may point past the end after super nodes were demoted
+		start := int(round[0])
+		if start >= len(snodes) {
+			start = 0
+		}
+		// visit every super node at most once, starting at the cursor
+		for n := 0; n < len(snodes); n++ {
+			i := (start + n) % len(snodes)
+
 			toIgnore := false
 			for _, ig := range ignore {
 				if ig == snodes[i].Creator {
@@ -149,28 +153,16 @@ func (k Keeper) GetNextSuperNodes(ctx sdk.Context, status uint32, reputation flo
 			if !toIgnore {
 				if status&snodes[i].Status == status && snodes[i].Reputation >= reputation {
 					// update next round
-					if int(i+1) >= len(snodes) {
+					if i+1 >= len(snodes) {
 						roundStore.Set(types.NodeRoundKey(), []byte{0})
 					} else {
-						roundStore.Set(types.NodeRoundKey(), []byte{i + 1})
+						roundStore.Set(types.NodeRoundKey(), []byte{uint8(i + 1)})
 					}
 					return snodes[i]
 				}
 			}
-			// if all super nodes don't satify, quit
-			if round[0] == 0 {
-				if i == uint8(len(snodes)-1) {
-					break
-				}
-			} else {
-				if i == uint8(round[0]-1) {
-					break
-				}
-			}
-			i++
 		}
 	}
-
 	return types.Node{}
 }
 
